@@ -101,7 +101,11 @@ class ClassInfo:
         self.base_exprs: List[ast.expr] = list(node.bases)
         self.bases: List["ClassInfo"] = []      # resolved, package-internal bases
         self.external_bases: List[str] = []
+        self.fields: List[str] = []             # annotated class-level names, in order (NamedTuple / dataclass fields)
+        self.decorators: List[str] = [(_dotted(d.func) if isinstance(d, ast.Call) else _dotted(d)) or "?" for d in node.decorator_list]
         for st in node.body:
+            if isinstance(st, ast.AnnAssign) and isinstance(st.target, ast.Name):
+                self.fields.append(st.target.id)
             if isinstance(st, (ast.FunctionDef, ast.AsyncFunctionDef)):
                 fi = FuncInfo(st.name, st, module, self)
                 if fi.kind == "setter":
